@@ -69,6 +69,9 @@ func holderAndChurn(parts []string) func(f *ae.SessionFactory, round int, viol f
 						r, err := s.Encrypt(ctx, pt)
 						if err != nil {
 							viol("round %d: encrypt on a session nobody closed failed: %v", round, err)
+						} else if want := "_IK_" + p + "_svc_prod"; r.Key == nil || r.Key.ParentKeyMeta == nil || r.Key.ParentKeyMeta.ID != want {
+							// partition isolation (C06): the session GetSession(p) hands out is p's
+							viol("round %d: the session handed out for partition %q wrote its record under key id %q: it is another partition's session", round, p, r.Key.ParentKeyMeta.ID)
 						} else if got, err := s.Decrypt(ctx, *r); err != nil || !bytes.Equal(got, pt) {
 							viol("round %d: decrypt on a session nobody closed failed: %v", round, err)
 						}
